@@ -237,13 +237,7 @@ static void bitset_case(const vh::Lines &ls, size_t N) {
 // ================================================================================================
 // array
 // ================================================================================================
-#ifdef BITS_MISC
-struct IArr {
-	virtual ~IArr() {}
-	virtual void load(const std::vector<uint64_t> &v) = 0;
-	virtual void op(const std::vector<std::string> &t, const std::string &line) = 0;
-};
-
+#if defined(BITS_ARRAY_A) || defined(BITS_ARRAY_B) || defined(BITS_MISC)
 static void print_list(const char *tag, const std::vector<uint64_t> &v) {
 	printf("%s", tag);
 	for(auto x : v) printf(" %llu", (ull)x);
@@ -255,88 +249,183 @@ static std::vector<uint64_t> nums(const std::vector<std::string> &t, size_t from
 	return v;
 }
 
-template <size_t N>
+// Element kinds.  A script denotes an element by a code; dec() builds the element, show() prints it
+// canonically (bit pattern for floating point, so that -0.0 / +0.0 / the NaNs are distinguishable).
+// The element type's OWN operator== is what array::operator== has to use: for float/double it is not
+// reflexive (NaN) and not bitwise (-0.0 == +0.0), for Pad it ignores padding and the low bit of b.
+static const uint64_t F64_TAB[10] = {0x0000000000000000ull, 0x8000000000000000ull, 0x7ff8000000000000ull, 0x7ff0000000000000ull,
+	0xfff0000000000000ull, 0x3ff0000000000000ull, 0xbff0000000000000ull, 0x4004000000000000ull, 0x0000000000000001ull, 0xfff8000000000000ull};
+static const uint32_t F32_TAB[10] = {0x00000000u, 0x80000000u, 0x7fc00000u, 0x7f800000u, 0xff800000u, 0x3f800000u, 0xbf800000u,
+	0x40200000u, 0x00000001u, 0xffc00000u};   // +0 -0 NaN +inf -inf 1 -1 2.5 denorm_min -NaN
+static char g_ptr_base[64];
+enum class Colour : uint8_t { black = 0, white = 255 };
+struct Pad {
+	uint8_t a; /* 3 bytes of padding */ uint32_t b;
+	bool operator==(const Pad &o) const { return a == o.a && (b | 1u) == (o.b | 1u); }
+};
+static std::string hex(ull x, int w) { char buf[32]; snprintf(buf, sizeof buf, "%0*llx", w, x); return buf; }
+
+struct KU64 { using T = uint64_t; static constexpr bool full = true; static const char *name() { return "u64"; }
+	static T dec(uint64_t c) { return c; } static std::string show(const T &x) { return std::to_string(x); }
+	static void scribble(T &, int) {} };
+struct KF64 { using T = double; static constexpr bool full = false; static const char *name() { return "f64"; }
+	static T dec(uint64_t c) { if(c >= 10) return (double)c; double d; memcpy(&d, &F64_TAB[c], 8); return d; }
+	static std::string show(const T &x) { uint64_t b; memcpy(&b, &x, 8); return hex(b, 16); }
+	static void scribble(T &, int) {} };
+struct KF32 { using T = float; static constexpr bool full = false; static const char *name() { return "f32"; }
+	static T dec(uint64_t c) { if(c >= 10) return (float)c; float d; memcpy(&d, &F32_TAB[c], 4); return d; }
+	static std::string show(const T &x) { uint32_t b; memcpy(&b, &x, 4); return hex(b, 8); }
+	static void scribble(T &, int) {} };
+struct KPtr { using T = const char *; static constexpr bool full = false; static const char *name() { return "ptr"; }
+	static T dec(uint64_t c) { return g_ptr_base + c % 64; } static std::string show(const T &x) { return std::to_string(x - g_ptr_base); }
+	static void scribble(T &, int) {} };
+struct KEnum { using T = Colour; static constexpr bool full = false; static const char *name() { return "enum"; }
+	static T dec(uint64_t c) { return (Colour)(uint8_t)c; } static std::string show(const T &x) { return std::to_string((unsigned)(uint8_t)x); }
+	static void scribble(T &, int) {} };
+struct KPad { using T = Pad; static constexpr bool full = false; static const char *name() { return "pad"; }
+	static T dec(uint64_t c) { Pad p; p.a = (uint8_t)c; p.b = (uint32_t)(c >> 8); return p; }
+	static std::string show(const T &x) { return std::to_string((unsigned)x.a) + ":" + std::to_string(x.b); }
+	static void scribble(T &x, int pat) { memset((char *)&x + 1, pat, 3); } };   // the padding bytes
+
+struct IArr {
+	virtual ~IArr() {}
+	virtual void load(const std::vector<uint64_t> &v) = 0;
+	virtual void op(const std::vector<std::string> &t, const std::string &line) = 0;
+};
+
+template <class K, size_t N>
 struct ArrImpl : IArr {
-	using FA = frg::array<uint64_t, N>;
-	using SA = std::array<uint64_t, N>;
+	using T = typename K::T;
+	using FA = frg::array<T, N>;
+	using SA = std::array<T, N>;
 	FA *a; void *mem; SA s;
-	ArrImpl() { mem = malloc(sizeof(FA)); a = new(mem) FA{}; s = SA{}; }
+	ArrImpl() { mem = malloc(sizeof(FA)); memset(mem, 0xAA, sizeof(FA)); a = new(mem) FA{}; s = SA{}; }
 	~ArrImpl() { free(mem); }
-	void load(const std::vector<uint64_t> &v) override { for(size_t i = 0; i < N; i++) { (*a)[i] = v[i]; s[i] = v[i]; } }
+	void load(const std::vector<uint64_t> &v) override { for(size_t i = 0; i < N; i++) put(i, v[i]); }
+	void put(size_t i, uint64_t c) { (*a)[i] = K::dec(c); K::scribble((*a)[i], 0xAA); s[i] = K::dec(c); }
+	template <class It> static std::vector<std::string> shows(It b, It e) { std::vector<std::string> r; for(; b != e; ++b) r.push_back(K::show(*b)); return r; }
+	static void plist(const std::vector<std::string> &v) { printf("l"); for(auto &x : v) printf(" %s", x.c_str()); printf("\n"); }
+	template <size_t M> static void fill(frg::array<T, M> &f, std::array<T, M> &m, const std::vector<uint64_t> &v, size_t off, int pat) {
+		for(size_t i = 0; i < M; i++) { f[i] = K::dec(v[(off + i) % v.size()]); K::scribble(f[i], pat); m[i] = K::dec(v[(off + i) % v.size()]); }
+	}
+	template <class R> void cmp_concat(const R &r, std::initializer_list<std::vector<std::string>> parts, size_t arity) {
+		std::vector<std::string> got = shows(r.begin(), r.end()), want;
+		for(auto &p : parts) want.insert(want.end(), p.begin(), p.end());
+		plist(got);
+		if(got != want) oracle("array-ref", "array_concat<%s> of %zu arrays (%zu elements) differs from the concatenation of the std::arrays", K::name(), arity, want.size());
+	}
 	template <size_t M>
 	void concat_with(const std::vector<uint64_t> &v) {
-		frg::array<uint64_t, M> b{}; std::array<uint64_t, M> sb{};
-		for(size_t i = 0; i < M; i++) { b[i] = v[i]; sb[i] = v[i]; }
-		auto r = frg::array_concat<uint64_t>(*a, b);
-		auto r3 = frg::array_concat<uint64_t>(b, *a, b);
-		static_assert(std::tuple_size_v<decltype(r)> == N + M);
-		std::vector<uint64_t> got(r.begin(), r.end()), want(s.begin(), s.end());
-		want.insert(want.end(), sb.begin(), sb.end());
-		print_list("l", got);
-		if(got != want) oracle("array-ref", "array_concat of %zu+%zu elements differs from the concatenation", N, M);
-		std::vector<uint64_t> got3(r3.begin(), r3.end()), want3(sb.begin(), sb.end());
-		want3.insert(want3.end(), s.begin(), s.end()); want3.insert(want3.end(), sb.begin(), sb.end());
-		print_list("l", got3);
-		if(got3 != want3) oracle("array-ref", "3-way array_concat differs from the concatenation");
+		frg::array<T, M> b{}; std::array<T, M> sb{}; fill<M>(b, sb, v, 0, 0x55);
+		frg::array<T, 2> c{}; std::array<T, 2> sc{}; fill<2>(c, sc, v, 3, 0x33);
+		auto A = shows(s.begin(), s.end()), B = shows(sb.begin(), sb.end()), C = shows(sc.begin(), sc.end());
+		auto r1 = frg::array_concat<T>(*a);
+		auto r2 = frg::array_concat<T>(*a, b);
+		auto r3 = frg::array_concat<T>(b, *a, b);
+		auto r4 = frg::array_concat<T>(*a, b, c, *a);
+		auto r5 = frg::array_concat<T>(c, *a, b, c, b);
+		static_assert(std::tuple_size_v<decltype(r5)> == N + 2 * M + 4);
+		cmp_concat(r1, {A}, 1); cmp_concat(r2, {A, B}, 2); cmp_concat(r3, {B, A, B}, 3);
+		cmp_concat(r4, {A, B, C, A}, 4); cmp_concat(r5, {C, A, B, C, B}, 5);
+	}
+	void eq_against(const FA &b, const SA &sb, const char *what) {
+		bool x = (*a == b), y = (s == sb), nx = (*a != b), ny = (s != sb), rx = (b == *a), ry = (sb == s);
+		printf("b %d %d\n", (int)x, (int)nx);
+		if(x != y) oracle("array-ref", "array<%s,%zu> operator== (%s) gives %d, std::array %d", K::name(), N, what, (int)x, (int)y);
+		if(nx != ny) oracle("array-ref", "array<%s,%zu> operator!= (%s) gives %d, std::array %d", K::name(), N, what, (int)nx, (int)ny);
+		if(rx != ry) oracle("array-ref", "array<%s,%zu> operator== with the operands exchanged (%s) gives %d, std::array %d", K::name(), N, what, (int)rx, (int)ry);
 	}
 	void op(const std::vector<std::string> &t, const std::string &line) override {
 		const std::string &o = t[0];
 		const FA &ca = *a;
-		if(o == "front") { uint64_t x = a->front(), y = ca.front(); printf("v %llu\n", (ull)x);
-			if(x != s.front() || y != s.front()) oracle("array-ref", "array<%zu>::front() = %llu, std::array %llu", N, (ull)x, (ull)s.front()); }
-		else if(o == "back") { uint64_t x = a->back(); uint64_t y = ca.back(); printf("v %llu\n", (ull)x);
-			if(x != s.back() || y != s.back()) oracle("array-ref", "array<%zu>::back() = %llu, std::array %llu", N, (ull)x, (ull)s.back());
-			if(&a->back() != a->data() + (N - 1)) oracle("array-ref", "array<%zu>::back() does not refer to the last element", N); }
-		else if(o == "idx") { size_t i = vh::u64(t[1]) % N; printf("v %llu\n", (ull)(*a)[i]);
-			if((*a)[i] != s[i] || ca[i] != s[i]) oracle("array-ref", "array<%zu>[%zu] differs from std::array", N, i); }
-		else if(o == "put") { size_t i = vh::u64(t[1]) % N; (*a)[i] = vh::u64(t[2]); s[i] = vh::u64(t[2]); printf("u\n"); }
-		else if(o == "iter") { std::vector<uint64_t> got, got2(ca.begin(), ca.end()), got3(a->cbegin(), a->cend()), want(s.begin(), s.end());
-			for(auto &x : *a) got.push_back(x);
-			print_list("l", got);
-			if(got != want || got2 != want || got3 != want) oracle("array-ref", "iteration over array<%zu> differs from std::array", N);
+		if(o == "front") { std::string x = K::show(a->front()), y = K::show(ca.front()), w = K::show(s.front()); printf("v %s\n", x.c_str());
+			if(x != w || y != w) oracle("array-ref", "array<%s,%zu>::front() = %s, std::array %s", K::name(), N, x.c_str(), w.c_str()); }
+		else if(o == "back") { std::string x = K::show(a->back()), y = K::show(ca.back()), w = K::show(s.back()); printf("v %s\n", x.c_str());
+			if(x != w || y != w) oracle("array-ref", "array<%s,%zu>::back() = %s, std::array %s", K::name(), N, x.c_str(), w.c_str());
+			if(&a->back() != a->data() + (N - 1)) oracle("array-ref", "array<%s,%zu>::back() does not refer to the last element", K::name(), N); }
+		else if(o == "idx") { size_t i = vh::u64(t[1]) % N; std::string x = K::show((*a)[i]), y = K::show(ca[i]), w = K::show(s[i]); printf("v %s\n", x.c_str());
+			if(x != w || y != w) oracle("array-ref", "array<%s,%zu>[%zu] differs from std::array", K::name(), N, i); }
+		else if(o == "put") { put(vh::u64(t[1]) % N, vh::u64(t[2])); printf("u\n"); }
+		else if(o == "iter") { std::vector<std::string> got, got2 = shows(ca.begin(), ca.end()), got3 = shows(a->cbegin(), a->cend()), want = shows(s.begin(), s.end());
+			for(auto &x : *a) got.push_back(K::show(x));
+			plist(got);
+			if(got != want || got2 != want || got3 != want) oracle("array-ref", "iteration over array<%s,%zu> differs from std::array", K::name(), N);
 			if(a->end() - a->begin() != (ptrdiff_t)N || a->data() != a->begin()) oracle("array-ref", "begin/end/data inconsistent"); }
-		else if(o == "eq") { auto v = nums(t, 1); FA b{}; SA sb{};
-			for(size_t i = 0; i < N; i++) { b[i] = v[i % v.size()]; sb[i] = v[i % v.size()]; }
-			bool x = (*a == b), y = (s == sb); printf("b %d\n", (int)x);
-			if(x != y) oracle("array-ref", "array<%zu> operator== gives %d, std::array %d", N, (int)x, (int)y); }
+		else if(o == "eq") { auto v = nums(t, 1); FA b; SA sb; memset((void *)&b, 0x55, sizeof b); fill<N>(b, sb, v, 0, 0x55);
+			eq_against(b, sb, line.c_str()); }
+		else if(o == "eqself") { FA b; SA sb = s; memset((void *)&b, 0x55, sizeof b);   // an element-wise copy (different padding) and the object itself
+			for(size_t i = 0; i < N; i++) { b[i] = (*a)[i]; K::scribble(b[i], 0x55); }
+			eq_against(b, sb, "copy of itself"); eq_against(*a, s, "itself"); }
 		else if(o == "size") { printf("n %zu\n", a->size());
 			if(a->size() != N || a->max_size() != N || a->empty() != (N == 0)) oracle("array-ref", "size/max_size/empty wrong"); }
-		else if(o == "get") { uint64_t x = frg::get<0>(*a), y = frg::get<N - 1>(*a), z = frg::get<N / 2>(ca);
-			printf("v %llu %llu %llu\n", (ull)x, (ull)y, (ull)z);
-			if(x != std::get<0>(s) || y != std::get<N - 1>(s) || z != std::get<N / 2>(s)) oracle("array-ref", "get<I> differs from std::get"); }
-		else if(o == "swap") { auto v = nums(t, 1); FA b{}; SA sb{};
-			for(size_t i = 0; i < N; i++) { b[i] = v[i % v.size()]; sb[i] = v[i % v.size()]; }
+		else if(o == "get") { std::string x = K::show(frg::get<0>(*a)), y = K::show(frg::get<N - 1>(*a)), z = K::show(frg::get<N / 2>(ca));
+			printf("v %s %s %s\n", x.c_str(), y.c_str(), z.c_str());
+			if(x != K::show(std::get<0>(s)) || y != K::show(std::get<N - 1>(s)) || z != K::show(std::get<N / 2>(s))) oracle("array-ref", "get<I> differs from std::get"); }
+		else if(o == "swap") { auto v = nums(t, 1); FA b{}; SA sb{}; fill<N>(b, sb, v, 0, 0x55);
 			swap(*a, b); std::swap(s, sb);
-			std::vector<uint64_t> got(b.begin(), b.end()), want(sb.begin(), sb.end());
-			print_list("l", got);
+			auto got = shows(b.begin(), b.end()), want = shows(sb.begin(), sb.end());
+			plist(got);
 			if(got != want) oracle("array-ref", "swap differs from std::array"); }
 		else if(o == "concat") { size_t m = vh::u64(t[1]); auto v = nums(t, 2);
 			while(v.size() < 5) v.push_back(0);
-			if(m == 1) concat_with<1>(v); else if(m == 2) concat_with<2>(v); else if(m == 3) concat_with<3>(v); else concat_with<5>(v); }
+			// (fewer instantiations for the non-integer kinds: compile time)
+			if constexpr (K::full) { if(m == 1) concat_with<1>(v); else if(m == 2) concat_with<2>(v); else if(m == 3) concat_with<3>(v); else concat_with<5>(v); }
+			else { if(m == 2) concat_with<2>(v); else concat_with<5>(v); } }
 		else printf("?\n");
 	}
 };
 
+template <class K>
+static IArr *make_arr(size_t n) {
+	if constexpr (K::full) {
+		switch(n) {
+		case 1: return new ArrImpl<K, 1>();
+		case 2: return new ArrImpl<K, 2>();
+		case 3: return new ArrImpl<K, 3>();
+		case 4: return new ArrImpl<K, 4>();
+		case 7: return new ArrImpl<K, 7>();
+		case 16: return new ArrImpl<K, 16>();
+		default: return nullptr;
+		}
+	} else {
+		switch(n) {
+		case 1: return new ArrImpl<K, 1>();
+		case 3: return new ArrImpl<K, 3>();
+		case 4: return new ArrImpl<K, 4>();
+		default: return nullptr;
+		}
+	}
+}
+
+// "array <kind> <N> codes..."
 static void array_case(const vh::Lines &ls) {
 	auto t0 = vh::split(ls[0]);
-	size_t n = vh::u64(t0[1]);
-	auto v = nums(t0, 2);
+	const std::string &kind = t0[1];
+	size_t n = vh::u64(t0[2]);
+	auto v = nums(t0, 3);
 	IArr *a = nullptr;
-	switch(n) {
-	case 1: a = new ArrImpl<1>(); break;
-	case 2: a = new ArrImpl<2>(); break;
-	case 3: a = new ArrImpl<3>(); break;
-	case 4: a = new ArrImpl<4>(); break;
-	case 7: a = new ArrImpl<7>(); break;
-	case 16: a = new ArrImpl<16>(); break;
-	default: printf("unsupported-size\n"); return;
-	}
+#ifdef BITS_ARRAY_A
+	if(kind == "u64") a = make_arr<KU64>(n);
+	else if(kind == "pad") a = make_arr<KPad>(n);
+	else if(kind == "enum") a = make_arr<KEnum>(n);
+#endif
+#ifdef BITS_ARRAY_B
+	if(kind == "f64") a = make_arr<KF64>(n);
+	else if(kind == "f32") a = make_arr<KF32>(n);
+	else if(kind == "ptr") a = make_arr<KPtr>(n);
+#endif
+	if(!a) { printf("unsupported-size\n"); return; }
 	while(v.size() < n) v.push_back(0);
 	a->load(v);
 	for(size_t i = 1; i < ls.size(); i++) a->op(vh::split(ls[i]), ls[i]);
 	delete a;
 }
 
+#endif
+#if defined(BITS_ARRAY_A) || defined(BITS_ARRAY_B)
+#define BITS_HAVE_ARRAY 1
+#endif
+#ifdef BITS_MISC
 // ================================================================================================
 // mt19937
 // ================================================================================================
@@ -487,8 +576,10 @@ static void body(const vh::Lines &ls) {
 	if(ls.empty()) return;
 	auto t = vh::split(ls[0]);
 	if(t[0] == "bitset") bitset_case(ls, vh::u64(t[1]));
-#ifdef BITS_MISC
+#ifdef BITS_HAVE_ARRAY
 	else if(t[0] == "array") array_case(ls);
+#endif
+#ifdef BITS_MISC
 	else if(t[0] == "mt") mt_case(ls);
 	else if(t[0] == "pcg") pcg_case(ls);
 	else if(t[0] == "sortcase") sort_case(ls);
